@@ -22,6 +22,7 @@ struct Gen<'a, R: RoleType, T: IsPacketId> {
     started: bool,               // a connection was started in this trace
     force_clean: Option<bool>,   // next handshake: clean start forced on/off
     force_ok: bool,              // next handshake completes successfully (no refusal, always answered)
+    force_persist: bool,         // next handshake asks for a persistent session (v5: Session Expiry Interval)
 }
 
 impl<'a, R: RoleType, T: IsPacketId> Gen<'a, R, T> {
@@ -99,7 +100,11 @@ impl<'a, R: RoleType, T: IsPacketId> Gen<'a, R, T> {
             let v = *self.rng.pick(&[1u32, 2, 3, 4, 5, 6, 8, 12, 20, 30, 50, 100, 100000]);
             ps.push(P::U32(39, v));
         }
-        if self.rng.chance(1, 3) {
+        if self.force_persist && !for_connack {
+            ps.push(P::U32(17, 100));
+        } else if self.force_persist {
+            // no Session Expiry override in the CONNACK
+        } else if self.rng.chance(1, 3) {
             ps.push(P::U32(17, *self.rng.pick(&[0u32, 0, 100, 4294967295])));
         }
         if for_connack && self.rng.chance(1, 3) {
@@ -198,6 +203,26 @@ impl<'a, R: RoleType, T: IsPacketId> Gen<'a, R, T> {
         }
     }
 
+    /// after a send carrying `id`: if the library neither took the id into an exchange nor released
+    /// it (a refusal that keeps the id), the application still holds it
+    fn after_send(&mut self, id: u64) {
+        if id == 0 {
+            return;
+        }
+        let has = |k: &str| self.s.field(k).split(',').any(|x| x == id.to_string());
+        let owned = has("suback") || has("unsuback") || has("puback") || has("pubrec") || has("pubcomp");
+        let free = self.s.field("pidfree").split(',').any(|iv| {
+            let mut it = iv.split('-');
+            match (it.next().and_then(|a| a.parse::<u64>().ok()), it.next().and_then(|b| b.parse::<u64>().ok())) {
+                (Some(a), Some(b)) => a <= id && id <= b,
+                _ => false,
+            }
+        });
+        if !owned && !free && !self.my_ids.contains(&id) {
+            self.my_ids.push(id);
+        }
+    }
+
     fn payload(&mut self) -> Vec<u8> {
         let n = *self.rng.pick(&[0usize, 1, 3, 3, 10, 40, 120, 200]);
         (0..n).map(|i| (i as u8).wrapping_mul(7)).collect()
@@ -244,6 +269,7 @@ impl<'a, R: RoleType, T: IsPacketId> Gen<'a, R, T> {
         self.my_ids.retain(|x| *x != id);
         self.op(format!("send {} {}", v, hex(&bytes)));
         if qos > 0 {
+            self.after_send(id);
             self.inflight.push((id, qos));
         }
     }
@@ -367,6 +393,7 @@ impl<'a, R: RoleType, T: IsPacketId> Gen<'a, R, T> {
                 let b = w_subscribe(v, pw, id, &[(b"f/#", self.rng.below(3) as u8)], &[]);
                 self.my_ids.retain(|x| *x != id);
                 self.op(format!("send {} {}", v, hex(&b)));
+                self.after_send(id);
                 self.subs.push((id, true));
             }
             2 => {
@@ -374,6 +401,7 @@ impl<'a, R: RoleType, T: IsPacketId> Gen<'a, R, T> {
                 let b = w_unsubscribe(v, pw, id, &[b"f/#"]);
                 self.my_ids.retain(|x| *x != id);
                 self.op(format!("send {} {}", v, hex(&b)));
+                self.after_send(id);
                 self.subs.push((id, false));
             }
             3 | 4 => {
@@ -676,6 +704,9 @@ fn walk<R: RoleType, T: IsPacketId>(role: &'static str, ver: u8, steps: usize, r
     if mode == 1 {
         return reuse_trial::<R, T>(role, ver, steps, rng, name, out);
     }
+    if mode == 2 {
+        return restore_trial::<R, T>(role, ver, steps, rng, name, out);
+    }
     let focus = rng.below(6) as u8;
     let legal = !rng.chance(1, 8);
     let mut g = Gen::<R, T> {
@@ -693,6 +724,7 @@ fn walk<R: RoleType, T: IsPacketId>(role: &'static str, ver: u8, steps: usize, r
         started: false,
         force_clean: None,
         force_ok: false,
+        force_persist: false,
     };
     // options
     for f in ["off", "apr", "aping", "amap", "arep"] {
@@ -758,7 +790,7 @@ fn reuse_trial<R: RoleType, T: IsPacketId>(role: &'static str, ver: u8, steps: u
     let focus = rng.below(6) as u8;
     let mut g = Gen::<R, T> {
         s: Sess::new(ver), rng, role, my_ids: vec![], inflight: vec![], rel_wait: vec![], peer_pubs: vec![], subs: vec![],
-        peer_mps: None, focus, legal: true, started: false, force_clean: None, force_ok: false,
+        peer_mps: None, focus, legal: true, started: false, force_clean: None, force_ok: false, force_persist: false,
     };
     for f in ["off", "apr", "aping", "amap", "arep"] {
         if g.rng.chance(2, 5) {
@@ -877,11 +909,155 @@ fn reuse_trial<R: RoleType, T: IsPacketId>(role: &'static str, ver: u8, steps: u
     g.s.dead || b.dead
 }
 
+/// C16: a persistent session is run on object A up to a crash point; the exported stored packets
+/// and handled ids are restored into a fresh object B; both resume the session (A after a close
+/// report) and run the same continuation; B's trace carries `Y` lines with A's answers.
+fn restore_trial<R: RoleType, T: IsPacketId>(role: &'static str, ver: u8, steps: usize, rng: &mut Rng, name: &str, out: &mut dyn Write) -> bool {
+    let mut g = Gen::<R, T> {
+        s: Sess::new(ver), rng, role, my_ids: vec![], inflight: vec![], rel_wait: vec![], peer_pubs: vec![], subs: vec![],
+        peer_mps: None, focus: 1, legal: true, started: false, force_clean: None, force_ok: false, force_persist: false,
+    };
+    g.op("set apr 1".into());
+    for f in ["off", "aping", "amap", "arep"] {
+        if g.rng.chance(2, 5) {
+            g.op(format!("set {f} 1"));
+        }
+    }
+    // first connection of a persistent session
+    g.force_clean = Some(g.rng.chance(1, 2));
+    g.force_ok = true;
+    g.force_persist = true;
+    g.handshake();
+    g.force_clean = None;
+    g.force_ok = false;
+    let hsteps = 3 + g.rng.below(steps as u64 / 2) as usize;
+    for _ in 0..hsteps {
+        if g.s.dead {
+            break;
+        }
+        g.step();
+    }
+    let plain = |g: &Gen<R, T>, out: &mut dyn Write| {
+        writeln!(out, "T conn {name} role={role} pw={} ver={ver} legal=1", g.s.pw).unwrap();
+        for l in &g.s.out_lines {
+            writeln!(out, "{l}").unwrap();
+        }
+        writeln!(out, "END").unwrap();
+    };
+    // the crash point: only meaningful while the session is persistent and its version known
+    if g.s.dead || g.s.field("need_store") != "1" || g.s.version() == 0 {
+        plain(&g, out);
+        return g.s.dead;
+    }
+    let v = g.s.version();
+    // export (public API), as the application would persist it
+    let stored = g.s.c.get_stored_packets();
+    let items: Vec<String> = stored
+        .iter()
+        .map(|sp| {
+            let gp: mqtt_protocol_core::mqtt::packet::GenericPacket<T> = sp.clone().into();
+            format!("{}:{}", v, hex(&bytes_of(&gp)))
+        })
+        .collect();
+    let mut handled: Vec<u64> = g.s.c.get_qos2_publish_handled().iter().map(|i| id_to_u64(*i)).collect();
+    handled.sort();
+    let restore_p = format!("restore_p {}", if items.is_empty() { "-".to_string() } else { items.join(",") });
+    let restore_h = format!("restore_h {}", if handled.is_empty() { "-".to_string() } else { handled.iter().map(|x| x.to_string()).collect::<Vec<_>>().join(",") });
+    let options: Vec<String> = ["off", "apr", "aping", "amap", "arep"].iter().map(|k| format!("set {k} {}", g.s.field(k))).chain([format!("interval {}", g.s.field("user")), format!("rto {}", g.s.field("pto"))]).collect();
+    // the original: identifiers the application merely held die with the process
+    // (also ids of exchanges in limbo: PUBREC seen, PUBREL not yet sent — owned by no wait set)
+    g.my_ids.clear();
+    let in_sets: Vec<u64> = ["suback", "unsuback", "puback", "pubrec", "pubcomp"]
+        .iter()
+        .flat_map(|k| g.s.field(k).split(',').filter_map(|x| x.parse::<u64>().ok()).collect::<Vec<_>>())
+        .collect();
+    let free: Vec<(u64, u64)> = g
+        .s
+        .field("pidfree")
+        .split(',')
+        .filter_map(|iv| {
+            let mut it = iv.split('-');
+            Some((it.next()?.parse().ok()?, it.next()?.parse().ok()?))
+        })
+        .collect();
+    let idmax = g.idmax();
+    let mut held: Vec<u64> = vec![];
+    let mut cands: Vec<u64> = (1..=64u64).collect();
+    cands.extend([idmax - 1, idmax]);
+    for id in cands {
+        if !free.iter().any(|(a, b)| *a <= id && id <= *b) && !in_sets.contains(&id) {
+            held.push(id);
+        }
+    }
+    for id in held {
+        g.op(format!("release {id}"));
+    }
+    g.op("closed".into());
+    let i0 = g.s.out_lines.len();
+    g.inflight.clear();
+    g.rel_wait.clear();
+    g.peer_pubs.clear();
+    g.subs.clear();
+    // resume: same handshake on both (not clean, session present, accepted)
+    g.force_clean = Some(false);
+    g.force_ok = true;
+    g.force_persist = true;
+    g.handshake();
+    g.force_clean = None;
+    g.force_ok = false;
+    g.force_persist = false;
+    for _ in 0..(steps / 2).max(6) {
+        if g.s.dead {
+            break;
+        }
+        g.step();
+    }
+    let a_lines: Vec<String> = g.s.out_lines[i0..].to_vec();
+    let s_ops = ops_of(&a_lines);
+    let pw = g.s.pw;
+    writeln!(out, "T conn {name}-original role={role} pw={pw} ver={ver} legal=1").unwrap();
+    for l in &g.s.out_lines {
+        writeln!(out, "{l}").unwrap();
+    }
+    writeln!(out, "END").unwrap();
+    let mut b = Sess::<R, T>::new(v);
+    for o in &options {
+        b.apply(o);
+    }
+    b.apply(&restore_p);
+    b.apply(&restore_h);
+    let j0 = b.out_lines.len();
+    for o in &s_ops {
+        b.apply(o);
+        if b.dead {
+            break;
+        }
+    }
+    writeln!(out, "T conn {name}-restored role={role} pw={pw} ver={v} legal=1 cmp=C16").unwrap();
+    for (j, l) in b.out_lines.iter().enumerate() {
+        writeln!(out, "{l}").unwrap();
+        if j >= j0 {
+            let f: Vec<&str> = a_lines.get(j - j0).map(|x| x.split(" | ").collect()).unwrap_or_default();
+            if f.len() == 5 {
+                writeln!(out, "Y {} | {} | {} | {}", f[0].strip_prefix("X ").unwrap_or(f[0]), f[2], f[3], f[4]).unwrap();
+            } else {
+                writeln!(out, "Y - | MISSING | - | -").unwrap();
+            }
+        }
+    }
+    if a_lines.len() > b.out_lines.len() - j0 {
+        writeln!(out, "Y - | EXTRA {} | - | -", a_lines.len() - (b.out_lines.len() - j0)).unwrap();
+    }
+    writeln!(out, "END").unwrap();
+    g.s.dead || b.dead
+}
+
 pub fn generate(tier: &str, seed: u64, args: &[String], out: &mut dyn Write) {
     let mut rng = Rng::new(seed ^ 0xC0FFEE);
     let thorough = tier == "thorough";
     let mode: u8 = match args.first().map(|s| s.as_str()) {
         Some("reuse") => 1,
+        Some("restore") => 2,
         _ => 0,
     };
     let args: &[String] = if mode != 0 { &args[1..] } else { args };
